@@ -718,8 +718,9 @@ class Summarizer:
                             if e[0] != "guard" and e not in st.events[seen:]:
                                 st.events.append(e)
                     return val
-        st.events.append(("call", fname, tuple(vkey(a) for a in args), tuple(sorted((k, vkey(x)) for k, x in kwargs.items())), n.lineno))
-        allargs = tuple(vkey(a) for a in args) + tuple((k, vkey(x)) for k, x in sorted(kwargs.items()))
+        recv0 = self.expr(n.func.value, st) if isinstance(n.func, ast.Attribute) else None
+        st.events.append(("call", fname, tuple(vkey(a) for a in args), tuple(sorted(((k or "**"), vkey(x)) for k, x in kwargs.items())), n.lineno, vkey(recv0) if recv0 is not None else None))
+        allargs = tuple(vkey(a) for a in args) + tuple((k, vkey(x)) for k, x in sorted(kwargs.items(), key=lambda kv: kv[0] or "**"))
         if isinstance(n.func, ast.Attribute):
             recv = self.expr(n.func.value, st)
             if not (isinstance(recv, Sym) and recv.key == ("name", "self")):
